@@ -462,6 +462,10 @@ fn check_env_cleanup(ctx: &Ctx, judgements: &[DocJudgement], out: &mut Vec<Viola
     // (SIGPIPE is different: that is how a run ends whose output nobody reads any more -
     // `scrut test ... | head` -, an ordinary way to end; the unchanged tree ignores the signal,
     // gets EPIPE and unwinds)
+    if ctx.duo {
+        // (judged for the pair of processes: check_duo)
+        return;
+    }
     let died = obs.exit_signal.is_some() && obs.exit_signal != Some(13);
     if died || obs.sim_abort.is_some() || obs.exit_status == Some(97) {
         // abort (e.g. stack overflow): no Drop runs, excluded by the property's wording of
@@ -590,6 +594,113 @@ fn check_env_cleanup(ctx: &Ctx, judgements: &[DocJudgement], out: &mut Vec<Viola
                     None,
                     format!("{} was created by another scrut instance and is gone after this run", path),
                 ));
+            }
+        }
+    }
+}
+
+// ------------------------------------------------------------------ C18: several scrut processes at the same time
+
+/// Two scrut processes ran at the same time on one temporary root (tier S-cli, duo runs): each
+/// must behave exactly as it does alone, they must not share a work directory (unless the user
+/// gave both the same --work-directory), and when both are gone nothing they created remains.
+pub fn check_duo(sc: &Scenario, partner: &Scenario, obs: &Observation, duo: &DuoObs, facts: &crate::facts::Facts, out: &mut Vec<Violation>) {
+    // the partner's own environment / work directory / report oracles
+    let (pv, pfacts, _) = crate::oracle::judge_one(partner, &duo.partner, true);
+    for x in pv {
+        if x.property == "C18" {
+            out.push(v("C18", &x.class, x.nonce.as_deref(), format!("(the process running next to this one) {}", x.detail)));
+        }
+    }
+    // undisturbed: the same exit status, reports and directories as alone
+    let spawn_shape = |f: &crate::facts::Facts| -> Vec<(bool, bool, String)> { f.procs.iter().map(|p| (p.cwd_exists, p.tmpdir_exists, p.stdin_kind.clone())).collect() };
+    let solo_facts = crate::facts::extract(sc, &duo.solo.log);
+    let psolo_facts = crate::facts::extract(partner, &duo.partner_solo.log);
+    for (who, alone, together, fa, ft) in [("this process", &duo.solo, obs, &solo_facts, facts), ("the process running next to it", &duo.partner_solo, &duo.partner, &psolo_facts, &pfacts)] {
+        if alone.exit_status != together.exit_status || alone.exit_signal != together.exit_signal {
+            out.push(v(
+                "C18",
+                "disturbed-by-concurrent-run",
+                None,
+                format!("{}: exit status {:?} (signal {:?}) alone, {:?} ({:?}) next to another scrut process (turns {:?})", who, alone.exit_status, alone.exit_signal, together.exit_status, together.exit_signal, duo.labels),
+            ));
+            continue;
+        }
+        let reports = |o: &Observation| -> Vec<(usize, Vec<(String, u32, String)>)> { o.docs.iter().map(|d| (d.doc, d.tests.iter().map(|t| (t.nonce.clone(), t.results, t.report.short().to_string())).collect())).collect() };
+        if reports(alone) != reports(together) {
+            out.push(v(
+                "C18",
+                "disturbed-by-concurrent-run",
+                None,
+                format!("{}: reports alone {:?}, next to another scrut process {:?}", who, reports(alone), reports(together)),
+            ));
+        }
+        if spawn_shape(fa) != spawn_shape(ft) {
+            out.push(v(
+                "C18",
+                "disturbed-by-concurrent-run",
+                None,
+                format!("{}: its processes (work directory exists, TMPDIR exists, stdin) alone {:?}, next to another scrut process {:?}", who, spawn_shape(fa), spawn_shape(ft)),
+            ));
+        }
+    }
+    // no work directory in common
+    if !(sc.cli.work_directory && partner.cli.work_directory) {
+        let mine: BTreeSet<String> = facts.procs.iter().map(|p| canon(&p.cwd)).collect();
+        for p in &pfacts.procs {
+            if mine.contains(&canon(&p.cwd)) {
+                out.push(v("C18", "work-directory-shared-between-processes", None, format!("both scrut processes ran test cases in {}", p.cwd)));
+                break;
+            }
+        }
+    }
+    // what is left when both are gone
+    let ended_regularly = |o: &Observation| !(o.exit_signal.is_some() && o.exit_signal != Some(13)) && o.sim_abort.is_none() && o.exit_status != Some(97);
+    if !ended_regularly(obs) || !ended_regularly(&duo.partner) {
+        return;
+    }
+    let Some(cli) = &obs.cli else { return };
+    let keep = sc.cli.keep_tmp || partner.cli.keep_tmp;
+    for (root, entries) in &obs.fs_after {
+        let is_work = cli.work_dir.as_ref().map(|w| canon(w) == canon(root)).unwrap_or(false) || duo.partner.cli.as_ref().and_then(|c| c.work_dir.as_ref()).map(|w| canon(w) == canon(root)).unwrap_or(false);
+        let mut residue: Vec<&String> = entries.iter().collect();
+        if is_work {
+            for must in ["users-own-file.txt", "users-own-dir/"] {
+                if !entries.iter().any(|e| e == must) {
+                    out.push(v("C18", "work-directory-content-removed", None, format!("{} that was in --work-directory before the two runs is gone", must)));
+                }
+            }
+            residue.retain(|e| *e != "users-own-file.txt" && *e != "users-own-dir/");
+        }
+        if keep {
+            residue.retain(|e| !(e.starts_with("execution.") || e.starts_with("temp.")));
+        }
+        if !residue.is_empty() {
+            out.push(v(
+                "C18",
+                "residue-after-concurrent-runs",
+                None,
+                format!(
+                    "after both scrut processes ended (exit {:?} / {:?}) {} still contains {:?} (turns {:?})",
+                    obs.exit_status,
+                    duo.partner.exit_status,
+                    if is_work { "--work-directory" } else { "the temp root" },
+                    residue.iter().take(6).collect::<Vec<_>>(),
+                    duo.labels
+                ),
+            ));
+        }
+    }
+    // the partner's work directory is listed by its own observation when only it has one
+    if !sc.cli.work_directory && partner.cli.work_directory {
+        for (root, entries) in &duo.partner.fs_after {
+            let is_work = duo.partner.cli.as_ref().and_then(|c| c.work_dir.as_ref()).map(|w| canon(w) == canon(root)).unwrap_or(false);
+            if !is_work {
+                continue;
+            }
+            let residue: Vec<&String> = entries.iter().filter(|e| *e != "users-own-file.txt" && *e != "users-own-dir/" && !(keep && e.starts_with("temp."))).collect();
+            if !residue.is_empty() || !entries.iter().any(|e| e == "users-own-file.txt") {
+                out.push(v("C18", "residue-after-concurrent-runs", None, format!("--work-directory of the second process: {:?}", entries.iter().take(6).collect::<Vec<_>>())));
             }
         }
     }
